@@ -111,7 +111,27 @@ pub(crate) fn m_nth_child() {
     assert!(got == want, ":nth-child({}n+{}) on element {}: got {} want {}", a, b, idx, got, want);
 }
 
+/// CSS with huge :nth-child coefficients is accepted or rejected, never a panic (public API).
+pub(crate) fn m_nth_parse() {
+    let _which: u8 = kani::any();
+    for css in [
+        "p:nth-child(99999999999) { color: red; }",
+        "p:nth-child(99999999999n) { color: red; }",
+        "p:nth-child(2n+99999999999) { color: red; }",
+        "p:nth-child(-2147483648n+1) { color: red; }",
+        "p:nth-child(2147483647n-2147483647) { color: red; }",
+    ] {
+        let r = crate::config::plain().add_css(css);
+        match r {
+            Ok(cfg) => {
+                let _ = cfg.string_from_read(&b"<div><p>a</p><p>b</p></div>"[..], 20);
+            }
+            Err(_) => {}
+        }
+    }
+}
+
 crate::verif_common::registry! {
-    m_nth_child,
+    m_nth_parse, m_nth_child,
     s3_selector_specificity,
 }
